@@ -80,8 +80,13 @@ def run_kernel_property(pid, tier, crate: K.KaniCrate, harnesses, *, timeout_s, 
         elif r.status == "FAILED":
             if relevant is not None:
                 r.failed_checks = [c for c in r.failed_checks if relevant(c)]
-            rep, plog = playback_native(crate, h, timeout_s * 2)
             key = key_of(h, r) if key_of else "kani:" + h
+            if key in known:
+                # same production, same failed assertions as a recorded finding (which was replayed natively when it was recorded)
+                known_hit.append((key, "%s: %s" % (h, r.failed_checks[:3])))
+                rec["status"] = "FAILED (known finding)"
+                continue
+            rep, plog = playback_native(crate, h, timeout_s * 2)
             if rep is True:
                 violations.append((key, "%s: %s – counterexample replayed natively against the real crate (test fails)" %
                                    (h, r.failed_checks[:3]), h, plog))
